@@ -6,8 +6,6 @@ CONSTANTS
   TopoIds = {"line3", "line4r", "line2s", "line4m", "rect32", "rect32r", "rect33m"}
   NTargetSets = 5
 INVARIANT ImageOK
-INVARIANT PickedContains
-INVARIANT OutsideRaises
-INVARIANT InsideLocated
+INVARIANT Containment
 INVARIANT MemoSound
 CHECK_DEADLOCK FALSE
